@@ -57,6 +57,7 @@ type plannedBlock struct {
 	// minter parameter update applied on the block's deliver state after the transactions (the way an
 	// executed governance proposal changes parameters); nil = none
 	minterUpdate *mintertypes.Params
+	discarded    *mintertypes.Params // a valid update executed on a branch of the block's state that is then dropped
 }
 
 type appRun struct {
@@ -271,6 +272,17 @@ func (r *appRun) runBlock(pb plannedBlock, tracked []sdk.AccAddress, rep *Report
 				}
 				rep.Eval("C05.rejected_message_changes_nothing", same, cid, bIdx, ptx.kind+" failed but balances changed")
 			}
+		}
+	}
+	if pb.discarded != nil {
+		// what a governance proposal (or a multi-message transaction, or a simulation) whose later message fails leaves behind:
+		// the update itself succeeds on a cache-wrapped context, and the context is never written
+		cc, _ := ctx.CacheContext()
+		err := app.CfeminterKeeper.UpdateParams(cc, appparams.GetAuthority(), *pb.discarded)
+		if record {
+			rep.Count("discarded_minter_update")
+			rep.Eval("C13.discarded_update_changes_nothing", err != nil || !sameParams(app.CfeminterKeeper.GetParams(ctx), *pb.discarded), cid, bIdx,
+				"a minter parameter update executed on a dropped branch of the state is visible in the block's state")
 		}
 	}
 	if pb.minterUpdate != nil {
@@ -550,6 +562,20 @@ func runAppCase(seed uint64, idx int, rep *Report, profile string, traceDir stri
 		}
 	}
 
+	if rng.Chance(35) && nBlocks > 3 {
+		at := 1 + rng.Intn(nBlocks-2)
+		mc3 := mc
+		mc3.minters = append([]genMinter{}, mc.minters...)
+		for i := range mc3.minters {
+			if mc3.minters[i].amt != nil {
+				mc3.minters[i].amt = new(big.Int).Add(new(big.Int).Mul(mc3.minters[i].amt, bi(3)), bi(7))
+			}
+		}
+		if p3 := mc3.params(); p3.Validate() == nil {
+			plan[at].discarded = &p3
+		}
+	}
+
 	// ---- run
 	var traceLines []string
 	var blocks []string
@@ -677,6 +703,12 @@ func runAppCase(seed uint64, idx int, rep *Report, profile string, traceDir stri
 		flush(idx)
 	}
 	return cases
+}
+
+func sameParams(a, b mintertypes.Params) bool {
+	x, _ := a.Marshal()
+	y, _ := b.Marshal()
+	return string(x) == string(y)
 }
 
 func fullStoreDump(app *c4eapp.App, storeKey string) string {
